@@ -195,6 +195,11 @@ def run(R):
                 if k not in seen:
                     seen.add(k)
                     n_nontrivial += 1
+            if gen_scopes.import_then_explicit_shape(spec):
+                # known finding C04-import-beats-later-registration: pavexc designates the imported constructor where the
+                # registration order designates a later explicit one; the model-free oracle above still applies
+                hist["import_then_explicit_programs"] = hist.get("import_then_explicit_programs", 0) + 1
+                continue
             for p in lifetrace.match_request(mr, ob, complete):
                 dis.append({"program": name, "request": where, "tag": tag, "what": p, "trace": resp.get("trace")})
             if len(samples) < 3 and mr.r["builtAt"] and fam == "scopes":
